@@ -1,7 +1,10 @@
 package h
 
 import (
+	"strings"
+
 	z "github.com/Oudwins/zog"
+	"github.com/Oudwins/zog/parsers/zjson"
 	v "github.com/Oudwins/zog/zzverif"
 )
 
@@ -29,7 +32,7 @@ type c08Dest struct {
 }
 
 func C08_Jobs() []string {
-	return []string{"struct/parse", "struct/validate", "prims/parse", "prims/validate", "slice/parse", "collect", "derived"}
+	return []string{"struct/parse", "struct/validate", "prims/parse", "prims/validate", "slice/parse", "collect", "derived", "json"}
 }
 func C08_Covers() []string { return []string{"ran"} }
 
@@ -160,6 +163,40 @@ func C08_Run(job string) {
 			var i int
 			l := z.Int().GT(1000).Parse(k, &i)
 			z.Issues.CollectList(l)
+		})
+		v.Unfreeze()
+	case "json":
+		// request documents through the JSON front end on shared schemas: undecodable, null and
+		// valid bodies, a struct root and a pointer root, issues collected afterwards
+		st := z.Struct(z.Schema{"x": z.Int().GT(0).Required()})
+		pst := z.Ptr(z.Struct(z.Schema{"x": z.Int().GT(0).Required()})).NotNil()
+		docs := []string{`{`, `null`, `{"x":0}`, `[1]`, `{"x":5}`}
+		v.Freeze(st, pst)
+		v.Concurrently(3, func(k int) {
+			for r := 0; r < 2; r++ {
+				doc := docs[(k+2*r)%len(docs)]
+				var d Inner
+				var pd *Inner
+				e1 := st.Parse(zjson.Decode(strings.NewReader(doc)), &d)
+				e2 := pst.Parse(zjson.Decode(strings.NewReader(doc)), &pd)
+				want := map[string]string{`{`: "invalid_json", `null`: "invalid_json", `[1]`: "invalid_json", `{"x":0}`: "gt", `{"x":5}`: ""}[doc]
+				key := "$root"
+				if want == "gt" {
+					key = "x"
+				}
+				if want == "" {
+					if e1 != nil || e2 != nil || d.X != 5 || pd == nil || pd.X != 5 {
+						v.Flag()
+					}
+				} else if len(e1[key]) != 1 || e1[key][0].Code != want || len(e2[key]) != 1 || e2[key][0].Code != want || len(e1) != 2 || len(e2) != 2 {
+					v.Flag()
+				}
+				if e1 != nil && e1["$first"][0].Message == "" {
+					v.Flag()
+				}
+				z.Issues.CollectMap(e1)
+				z.Issues.SanitizeMapAndCollect(e2)
+			}
 		})
 		v.Unfreeze()
 	case "derived":
